@@ -83,16 +83,17 @@ prop("C13",
      )
 
 prop("C09",
-     modules=["Emu2a.Props.C09", "Emu2a.Props.C01x.MulDivPages"],
+     modules=["Emu2a.Props.C09", "Emu2a.Props.C09x.Sound", "Emu2a.Props.C01x.MulDivPages"],
      theorems=["Emu2a.C09.next_in_succs", "Emu2a.C09.in_page", "Emu2a.C09.fetch_words_equal", "Emu2a.C09.second_word_unique",
                "Emu2a.C09.defined_complete_bounded", "Emu2a.C09.prefix_bounded", "Emu2a.C09.second_defined_completes",
                "Emu2a.C09.muldiv_complete_cut", "Emu2a.C09.reset_reaches_fetch", "Emu2a.C09.undefined_never_complete",
-               "Emu2a.C09.completes_iff", "Emu2a.Gen.decode_ok", "Emu2a.C01.page_B", "Emu2a.C01.page_C"],
+               "Emu2a.C09.completes_iff", "Emu2a.Gen.decode_ok", "Emu2a.C01.page_B", "Emu2a.C01.page_C",
+               "Emu2a.C09.step_in_succNodes", "Emu2a.C09.completes_sound", "Emu2a.C09.visited_sound"],
      harness="c09",
      drill={"prefix": "nexthash", "cmd": "c09drill"},
      shrink=False,
      exhaustive={"quick": False, "thorough": True},
-     level_text="Lean theorems evaluated by the kernel over the control store regenerated from microprogram_ram_content.rs: the graph of (micro-address, instruction register) nodes over-approximates the real sequencer for every flag/ALU-condition/interrupt input (next_in_succs), every defined first byte and every defined second byte reaches the next fetch within 15 (+3+1 for prefixes) steps visiting programmed words only, the only cycles are the MUL and DIV loops (single back edge each), the undefined first bytes 0x4C-0x4F/0xE0-0xEF form closed fetch-free sets, completes_iff; page_B / page_C (from C01's loop lemmas): every MUL and DIV opcode reaches the next fetch for all operand values, zero divisor included; the next-address function of signals.rs is tied to the model by block hashes over its whole domain (512 x 256 x 16 x 16; quick tier: all programmed addresses + a quarter of the rest), and every opcode is run on the real machine",
+     level_text="Lean theorems evaluated by the kernel over the control store regenerated from microprogram_ram_content.rs: the graph of (micro-address, instruction register) nodes over-approximates the real sequencer for every flag/ALU-condition/interrupt input (next_in_succs, step_in_succNodes: one executed edge of the data-path model moves along a graph edge), and the exploration is SOUND for executions (completes_sound / visited_sound: if the exploration of a node set completes within n levels then every execution of the micro-machine model from any visited node - any registers, flags, memory, ALU latch, interrupt flip-flop - reaches a fetch word or the second-opcode word within n steps over programmed words only); every defined first byte and every defined second byte reaches the next fetch within 15 (+3+1 for prefixes) steps visiting programmed words only, the only cycles are the MUL and DIV loops (single back edge each), the undefined first bytes 0x4C-0x4F/0xE0-0xEF form closed fetch-free sets, completes_iff; page_B / page_C (from C01's loop lemmas): every MUL and DIV opcode reaches the next fetch for all operand values, zero divisor included; the next-address function of signals.rs is tied to the model by block hashes over its whole domain (512 x 256 x 16 x 16; quick tier: all programmed addresses + a quarter of the rest), and every opcode is run on the real machine",
      technique="Lean 4 kernel evaluation (decide +kernel) of graph properties over the translated control store + exhaustive differential of the next-address function + opcode enumeration on the real machine",
      rule="nexthash: FNV hash of next_microprogram_address over 256 IR x 16 flag x 8 ALU-condition x 2 interrupt values per micro-address, real Signals vs model; spec.flow: every first byte (x every defined second byte and a sample of undefined ones for prefixes) executed from a forced boundary with random registers/flags/pending interrupt, observing zero words, page escapes, completion and micro-step count; all 32 MUL/DIV opcodes with boundary operands (0, 1, 2, 0x80, 0xFF) in R0-R2 in every combination; distinct = distinct (opcode, second byte, registers, interrupt) tuples",
      explanation="MUL/DIV loop termination for all 65 536 operand pairs: C01's page_B / page_C (every MUL and DIV opcode reaches the next fetch from any state, by induction over the loop) are part of this property's theorem list; the harness runs MUL/DIV with random and with boundary operands (0, 1, 2, 0x80, 0xFF in every register)",
@@ -113,18 +114,20 @@ prop("C07",
      )
 
 prop("C11",
-     modules=["Emu2a.Props.C11", "Emu2a.Props.C11x.Terminates"],
+     modules=["Emu2a.Props.C11", "Emu2a.Props.C11x.Terminates", "Emu2a.Props.C11x.MidInstr"],
      theorems=["Emu2a.C11.keyClock_assembly_spec", "Emu2a.C11.stepA_spec", "Emu2a.C11.stepB_spec", "Emu2a.C11.keyClock_real",
                "Emu2a.C11.keyClock_halted", "Emu2a.C11.mode_irrelevant", "Emu2a.C11.edges_mode",
                "Emu2a.C11.stepB_terminates_partial", "Emu2a.C11.fetch_successor_not_fetch", "Emu2a.C11.stepA_mono",
                "Emu2a.C11.stepB_mono", "Emu2a.C11.reach_done", "Emu2a.C11.stepB_terminates", "Emu2a.C11.after_fetch_not_done",
-               "Emu2a.C11.keyClock_terminates"],
+               "Emu2a.C11.keyClock_terminates", "Emu2a.C11.keyClock_terminates_of_reach", "Emu2a.C11.keyClock_terminates_pending",
+               "Emu2a.C11.stepB_terminates_mid", "Emu2a.C11.stepB_terminates_mid_second", "Emu2a.C11.plain_no_second",
+               "Emu2a.C11.second_no_second", "Emu2a.C11.fetch_step_in_start"],
      harness="c11",
-     level_text="Lean theorems: an assembly step returns exactly the iterate clockEdge^(k1+k2) where k1 edges leave the boundary and k2 edges run to the FIRST state that is at the next boundary, halted or a fixed point (never more, never less: every earlier iterate still satisfies the loop condition and is no fixed point); real mode = one edge; a halted machine returns unchanged; the step mode is neither read nor written by clock edges. TERMINATION is a theorem for every machine at an instruction boundary: keyClock_terminates - whatever the registers, flags, memory, wait flag, halt state and supervision limits, with any defined instruction at PC (MUL and DIV with any operands included, by C01's isa_refines) and no interrupt pending, trigger_key_clock in assembly mode returns; reach_done - if the data path reaches a boundary word within n steps the machine leaves the loop condition after at most 2n clock edges; after_fetch_not_done - the first loop ends after one executed edge (over the regenerated control store). For states inside an instruction, with an interrupt pending at the end of the instruction, or with an undefined opcode (hang words become fixed points, fix c003f27) termination is conditional (stepB_terminates_partial) and established by the harness sweep (all 256 opcode bytes x second bytes under a watchdog, every mid-run state of generated runs incl. interrupt entry)",
+     level_text="Lean theorems: an assembly step returns exactly the iterate clockEdge^(k1+k2) where k1 edges leave the boundary and k2 edges run to the FIRST state that is at the next boundary, halted or a fixed point (never more, never less: every earlier iterate still satisfies the loop condition and is no fixed point); real mode = one edge; a halted machine returns unchanged; the step mode is neither read nor written by clock edges. TERMINATION is a theorem for every machine at an instruction boundary: keyClock_terminates - whatever the registers, flags, memory, wait flag, halt state and supervision limits, with any defined instruction at PC (MUL and DIV with any operands included, by C01's isa_refines) and no interrupt pending, trigger_key_clock in assembly mode returns; reach_done - if the data path reaches a boundary word within n steps the machine leaves the loop condition after at most 2n clock edges; after_fetch_not_done - the first loop ends after one executed edge (over the regenerated control store). keyClock_terminates_pending - the same with an interrupt request pending and any interrupt-enable flag (the step then runs through the interrupt entry) for every one-byte instruction outside MUL/DIV; stepB_terminates_mid / stepB_terminates_mid_second - from ANY state inside the routine of such an instruction, inside the interrupt entry sequence that follows it, or inside the routine of a defined second opcode byte the step returns, whatever data, flags and flip-flop hold (from C09's exploration of the regenerated control store through completes_sound / visited_sound: every execution from a visited node reaches a fetch word within 15 steps). For states inside a MUL/DIV loop, a pending interrupt at the end of MUL/DIV or of a two-byte instruction, or an undefined opcode (hang words become fixed points, fix c003f27) termination is conditional (stepB_terminates_partial) and established by the harness sweep (all 256 opcode bytes x second bytes under a watchdog, every mid-run state of generated runs incl. interrupt entry)",
      technique="Lean 4 loop characterisation by induction on fuel + termination from the ISA refinement (every data-path step costs at most two edges) + differential: real trigger_key_clock on a clone vs single edges to the boundary at every edge of generated runs, watchdog for termination",
      rule="(1) every opcode byte 0..255 at PC (prefixes x defined second bytes + a rotating eighth of all second bytes), three consecutive assembly steps each, real step on a clone under a 5 s watchdog compared (PartialEq) with single edges to the next boundary; (2) 40/400 runs of 300 edges of confined and random programs with stimuli: at EVERY edge a clone is stepped in assembly mode and compared; random mode switches mid-run; (3) long instructions: DIV/MUL with every dividend and divisors 1,2,3,7,255; distinct = distinct op lines",
      explanation="hang words (undefined opcodes) become fixed points after their second execution; the fix c003f27 leaves the loop there",
-     assumptions=["termination from mid-instruction states and across interrupt entry rests on the conditional theorem plus the harness sweep (see level text)"],
+     assumptions=["termination from states inside a MUL/DIV loop and with a request pending at the end of MUL/DIV or a two-byte instruction rests on the conditional theorem plus the harness sweep (see level text)"],
      )
 
 prop("C15",
